@@ -296,7 +296,43 @@ def vary(rng, j):
             c["value"] = None if c.get("value") is not None else "0a0b"
         elif c["k"] == "paged":
             c["size"] = c["size"] + 1
+    res = m["op"].get("res")
+    if res is not None and rng.random() < 0.8:
+        # another result code that agrees with the first one modulo 2^8 / 2^16 / 2^32 / 2^64 (or is its negative)
+        res["code"] = res["code"] + rng.choice([1, -1]) * rng.choice([2**32, 2**32, 2**64, 256, 65536]) if rng.random() < 0.85 else -res["code"]
     return m
+
+
+def with_result_code(data: bytes, code: int) -> bytes:
+    """the same message with the result code written by the harness's OWN encoder (the library's enum may already have folded or cached the
+    number when the message object was built)"""
+    import ber
+
+    top = ber.parse(data)
+    en = top[0].kids[1].kids[0]
+    assert (en.cls, en.num, en.kids) == (0, 10, None)
+    en.content = code.to_bytes((code if code >= 0 else ~code).bit_length() // 8 + 1, "big", signed=True)
+    return ber.encode(top[0])
+
+
+def decode_alone(side, kind, y: bytes):
+    """what a fresh session in a FRESH interpreter returns for the bytes y (canonical JSON of the messages), or None"""
+    code = (
+        "import sys, json; sys.path.insert(0, %r); import codec as C\n"
+        "from codec import sansldap\n"
+        "side, kind, hexs = json.load(sys.stdin)\n"
+        "if side == 'server':\n"
+        "    s = sansldap.LDAPServer()\n"
+        "else:\n"
+        "    s = sansldap.LDAPClient()\n"
+        "    s.search_request('', filter=None) if kind.startswith('search') else (s.bind_simple('', '') if kind == 'bindResp' else s.extended_request('1.2'))\n"
+        "    s.data_to_send()\n"
+        "json.dump([C.msg_to_json(m) for m in s.receive(bytes.fromhex(hexs))], sys.stdout)\n" % HERE
+    )
+    p = subprocess.run([sys.executable, "-c", code], input=json.dumps([side, kind, y.hex()]), capture_output=True, text=True, timeout=120)
+    if p.returncode != 0:
+        return None
+    return json.loads(p.stdout)
 
 
 def shared_results(ctx, hist):
@@ -315,6 +351,8 @@ def shared_results(ctx, hist):
         j2 = vary(rng, j) if rng.random() < 0.7 else dict(gen.g_msg(rng, kind, depth=2), id=1)
         try:
             x, y = C.msg_from_json(j).pack(o), C.msg_from_json(j2).pack(o)
+            if j["op"].get("res") is not None:
+                x, y = with_result_code(x, j["op"]["res"]["code"]), with_result_code(y, j2["op"]["res"]["code"])
         except BaseException:  # noqa: BLE001
             continue
 
@@ -330,12 +368,24 @@ def shared_results(ctx, hist):
             a, b = fresh(), fresh()
             ra = a.receive(x)
             at_time = [C.msg_to_json(m) for m in ra]
-            b.receive(y)
+            rb = b.receive(y)
             now = [C.msg_to_json(m) for m in ra]
+            got_b = [C.msg_to_json(m) for m in rb]
         except sansldap.LDAPError:
             hist["shared-results:rejected"] += 1
             continue
         hist["shared-results:pairs"] += 1
+        import p_c01 as _p1
+        if [_p1.strip_raw(m) for m in got_b] != [_p1.strip_raw(j2)]:
+            # the second session did not get the message that was sent to it: is that because of what the FIRST session decoded before?
+            alone = decode_alone(side, kind, y)
+            if alone is not None and alone != got_b:
+                out.append({"key": None, "what": "what a session decodes depends on what ANOTHER session decoded before it: the same bytes give another "
+                            "message to a fresh session in a fresh interpreter", "side": side, "first_session_bytes": x.hex(),
+                            "second_session_bytes": y.hex(), "second_session_got": got_b, "alone_in_fresh_interpreter": alone})
+                if len(out) >= 5:
+                    break
+                continue
         if now != at_time:
             out.append({"key": None, "what": "a message object returned by receive() to one session was changed afterwards when another session "
                         "decoded a similar message (decoded objects are shared between sessions)", "side": side,
